@@ -32,7 +32,8 @@ DirOf(c) == CASE c = "d1" -> "d1" [] c = "D1" -> "D1" [] c = "d2" -> "d2" [] c =
               [] c = "nested" -> "a/b" [] c = "dot" -> "." [] c = "dotdot" -> ".." [] c = "empty" -> ""
               [] c = "abs" -> "/abs" [] c = "up" -> "../x" [] c = "downup" -> "a/.." [] c = "bs" -> "a\\b"
               [] c = "manifest" -> "terraform-sources.json" [] c = "tmp" -> ".tmp-x"
-DirClasses == {"d1", "D1", "d2", "hash", "nested", "dot", "dotdot", "empty", "abs", "up", "downup", "bs", "manifest", "tmp"}
+              [] c = "ddsp" -> ".. " [] c = "spdot" -> " ." [] c = "spd1" -> " d1"
+DirClasses == {"d1", "D1", "d2", "hash", "nested", "dot", "dotdot", "empty", "abs", "up", "downup", "bs", "manifest", "tmp", "ddsp", "spdot", "spd1"}
 \* L0: names C18 says must be refused (a separator, ".", ".." - and the empty name, which denotes the root itself)
 DirHostile(c) == c \in {"nested", "dot", "dotdot", "empty", "abs", "up", "downup"}
 
